@@ -7,7 +7,9 @@ extern "C" {
 #include "a/math.h"
 }
 
+#include <utility>
 typedef unsigned __int128 u128;
+static bool g_light;
 static grid::Run R;
 
 static uint64_t ref_gcd(uint64_t a, uint64_t b) // Stein's binary gcd: independent of the remainder-based implementation
@@ -219,6 +221,7 @@ static void rev_all()
     }
     uint64_t lo, hi;
     R.shard.range(1ull << 32, lo, hi);
+    if (g_light) { hi = lo + (hi - lo) / 1024; }
     for (uint64_t x = lo; x < hi; ++x)
     {
         a_u32 r = a_u32_rev((a_u32)x);
@@ -277,6 +280,7 @@ static void order_all()
     if (R.shard.idx == 0) { for (uint32_t x = 0; x < 65536; ++x) { for (int off = 0; off < 8; ++off) { order_one<16>(x, off); } } }
     uint64_t lo, hi;
     R.shard.range(1ull << 32, lo, hi);
+    if (g_light) { hi = lo + (hi - lo) / 1024; }
     for (uint64_t x = lo; x < hi; ++x)
     {
         order_one<32>(x, (int)(x & 7));
@@ -290,6 +294,136 @@ static void order_all()
     R.sample("{\"fn\":\"a_u64_setb/getl\",\"x\":\"0x0102030405060708\",\"bytes\":\"01 02 03 04 05 06 07 08\"}");
 }
 
+// ---------------------------------------------------------------- accessor sequences on shared bytes
+// The accessors are defined on BYTES: a store followed by a store of another width (or order) over the same bytes and a load
+// must see the bytes as they are.  Straight-line sequences through opaque pointers, compiled with optimisation, are what
+// exposes an accessor that reads or writes through a typed pointer (the optimiser may then reorder or merge the accesses)
+// or a load that is declared not to depend on memory.  Kinds: 0 u16 le, 1 u16 be, 2 u32 le, 3 u32 be, 4 u64 le, 5 u64 be.
+template <int K> static inline __attribute__((always_inline)) void st_k(void *p, uint64_t x)
+{
+    if (K == 0) { a_u16_setl(p, (a_u16)x); } else if (K == 1) { a_u16_setb(p, (a_u16)x); }
+    else if (K == 2) { a_u32_setl(p, (a_u32)x); } else if (K == 3) { a_u32_setb(p, (a_u32)x); }
+    else if (K == 4) { a_u64_setl(p, x); } else { a_u64_setb(p, x); }
+}
+template <int K> static inline __attribute__((always_inline)) uint64_t ld_k(const void *p)
+{
+    return K == 0 ? a_u16_getl(p) : K == 1 ? a_u16_getb(p) : K == 2 ? a_u32_getl(p) : K == 3 ? a_u32_getb(p) : K == 4 ? a_u64_getl(p) : a_u64_getb(p);
+}
+static void st_ref(unsigned char *p, int k, uint64_t x)
+{
+    int B = 2 << (k / 2);
+    for (int i = 0; i < B; ++i) { p[(k & 1) ? B - 1 - i : i] = (unsigned char)(x >> (8 * i)); }
+}
+static uint64_t ld_ref(const unsigned char *p, int k)
+{
+    int B = 2 << (k / 2);
+    uint64_t v = 0;
+    for (int i = 0; i < B; ++i) { v |= (uint64_t)p[(k & 1) ? B - 1 - i : i] << (8 * i); }
+    return v;
+}
+// store K1 at p, store K2 at q, load K3 at p
+template <int K1, int K2, int K3> static __attribute__((noinline)) uint64_t seq_ssl(void *p, void *q, uint64_t a, uint64_t b)
+{
+    st_k<K1>(p, a);
+    st_k<K2>(q, b);
+    return ld_k<K3>(p);
+}
+// load K3 at p, store K1 at q of (loaded value + c), load K3 at p again: returns the two loads xor-folded with a rotation
+template <int K1, int K3> static __attribute__((noinline)) uint64_t seq_lsl(void *p, void *q, uint64_t c, uint64_t *first)
+{
+    uint64_t x = ld_k<K3>(p);
+    st_k<K1>(q, x + c);
+    *first = x;
+    return ld_k<K3>(p);
+}
+template <int K> static __attribute__((noinline)) void seq_pun(void *obj, int width, uint64_t *l1, uint64_t *l2)
+{
+    // the storage of a floating-point object is rewritten natively between two loads of its bytes
+    if (width == 4) { *(float *)obj = 1.5f; } else { *(double *)obj = 1.5; }
+    *l1 = ld_k<K>(obj);
+    if (width == 4) { *(float *)obj = -2.25f; } else { *(double *)obj = -2.25; }
+    *l2 = ld_k<K>(obj);
+}
+static uint64_t sn, snt;
+static const uint64_t SEQV[3] = {0x1122334455667788ull, 0xFEDCBA9876543210ull, 0};
+typedef uint64_t (*ssl_fn)(void *, void *, uint64_t, uint64_t);
+typedef uint64_t (*lsl_fn)(void *, void *, uint64_t, uint64_t *);
+typedef void (*pun_fn)(void *, int, uint64_t *, uint64_t *);
+template <size_t... I> static void ssl_table(ssl_fn *t, std::index_sequence<I...>) { ((t[I] = seq_ssl<(int)(I / 36), (int)((I / 6) % 6), (int)(I % 6)>), ...); }
+template <size_t... I> static void lsl_table(lsl_fn *t, std::index_sequence<I...>) { ((t[I] = seq_lsl<(int)(I / 6), (int)(I % 6)>), ...); }
+template <size_t... I> static void pun_table(pun_fn *t, std::index_sequence<I...>) { ((t[I] = seq_pun<(int)I>), ...); }
+static void seq_one(int K1, int K2, int K3, ssl_fn ssl, lsl_fn lsl)
+{
+    for (int off = 0; off < 4; ++off)
+    {
+        for (int d = -3; d <= 3; ++d)
+        {
+            for (int va = 0; va < 3; ++va)
+            {
+                alignas(16) unsigned char buf[40], ref[40];
+                for (int i = 0; i < 40; ++i) { buf[i] = ref[i] = (unsigned char)(0xA0 + i); }
+                unsigned char *p = buf + 12 + off, *q = buf + 12 + off + d;
+                uint64_t a = SEQV[va], b = SEQV[(va + 1) % 3];
+                uint64_t got = ssl(p, q, a, b);
+                st_ref(ref + 12 + off, K1, a);
+                st_ref(ref + 12 + off + d, K2, b);
+                uint64_t want = ld_ref(ref + 12 + off, K3);
+                ++sn; ++snt;
+                if (got != want || memcmp(buf, ref, sizeof buf) != 0)
+                {
+                    R.viol("accessor-sequence|store-store-load", "store (kind " + std::to_string(K1) + ") at p, store (kind " + std::to_string(K2) + ") at p" + (d < 0 ? "" : "+") + std::to_string(d) + ", load (kind " + std::to_string(K3) + ") at p: loaded " + grid::hex(got) + ", the bytes hold " + grid::hex(want) + " (kinds: 0 u16 le, 1 u16 be, 2 u32 le, 3 u32 be, 4 u64 le, 5 u64 be)",
+                           "[" + std::to_string(K1) + "," + std::to_string(K2) + "," + std::to_string(K3) + "," + std::to_string(off) + "," + std::to_string(d) + "]");
+                    return;
+                }
+                if (K2 != 0) { continue; } // the load-store-load form once per (K1, K3)
+                uint64_t first = 0;
+                uint64_t second = lsl(p, q, 0x0101010101010101ull, &first);
+                uint64_t w1 = ld_ref(ref + 12 + off, K3);
+                st_ref(ref + 12 + off + d, K1, w1 + 0x0101010101010101ull);
+                uint64_t w2 = ld_ref(ref + 12 + off, K3);
+                ++sn; ++snt;
+                if (first != w1 || second != w2 || memcmp(buf, ref, sizeof buf) != 0)
+                {
+                    R.viol("accessor-sequence|load-store-load", "load (kind " + std::to_string(K3) + ") at p, store (kind " + std::to_string(K1) + ") at p" + (d < 0 ? "" : "+") + std::to_string(d) + ", load again: second load " + grid::hex(second) + ", the bytes hold " + grid::hex(w2),
+                           "[" + std::to_string(K1) + "," + std::to_string(K3) + "," + std::to_string(off) + "," + std::to_string(d) + "]");
+                    return;
+                }
+            }
+        }
+    }
+}
+static void pun_one(int K, pun_fn pun)
+{
+    int width = K < 4 ? 4 : 8;
+    if (K < 2) { return; }
+    float f4 = 0;
+    double f8 = 0;
+    uint64_t l1 = 0, l2 = 0, w1, w2;
+    pun(width == 4 ? (void *)&f4 : (void *)&f8, width, &l1, &l2);
+    unsigned char r[8];
+    if (width == 4) { float f = 1.5f; memcpy(r, &f, 4); w1 = ld_ref(r, K); f = -2.25f; memcpy(r, &f, 4); w2 = ld_ref(r, K); }
+    else { double f = 1.5; memcpy(r, &f, 8); w1 = ld_ref(r, K); f = -2.25; memcpy(r, &f, 8); w2 = ld_ref(r, K); }
+    ++sn; ++snt;
+    if (l1 != w1 || l2 != w2) { R.viol("accessor-sequence|float-storage", "loading the bytes of a floating-point object (kind " + std::to_string(K) + ") before and after it is rewritten gives " + grid::hex(l1) + " / " + grid::hex(l2) + ", the bytes hold " + grid::hex(w1) + " / " + grid::hex(w2), "[" + std::to_string(K) + "]"); }
+}
+static void order_seq()
+{
+    vx::mark("accessor sequences");
+    sn = snt = 0;
+    if (R.shard.idx == 0)
+    {
+        static ssl_fn ssl[216];
+        static lsl_fn lsl[36];
+        static pun_fn pun[6];
+        ssl_table(ssl, std::make_index_sequence<216>());
+        lsl_table(lsl, std::make_index_sequence<36>());
+        pun_table(pun, std::make_index_sequence<6>());
+        for (int i = 0; i < 216; ++i) { seq_one(i / 36, (i / 6) % 6, i % 6, ssl[i], lsl[(i / 36) * 6 + i % 6]); }
+        for (int k = 0; k < 6; ++k) { pun_one(k, pun[k]); }
+    }
+    R.part("accessor sequences on shared bytes: all 6^3 store/store/load and 6^2 load/store/load kind combinations x 4 offsets x 7 overlaps x 3 value pairs, floating-point storage reloaded after a native write", sn, snt);
+}
+
 int main(int argc, char **argv)
 {
     vx::Args args(argc, argv);
@@ -301,11 +435,16 @@ int main(int argc, char **argv)
         return 0;
     }
     return vx::run_contained([&] {
-        sqrt32_all();
-        sqrt64_lattice(thorough);
-        gcd_all(thorough);
+        g_light = args.geti("light", 0) != 0; // accessors and reversal only, without the 2^32 sweeps (sanitizer and out-of-line configurations)
+        if (!g_light)
+        {
+            sqrt32_all();
+            sqrt64_lattice(thorough);
+            gcd_all(thorough);
+        }
         rev_all();
         order_all();
+        order_seq();
         R.finish(true, "every listed domain enumerated completely");
     }, 120.0);
 }
